@@ -276,7 +276,11 @@ fn main() {
             let mut imp = Vec::new();
             let mut flog: Vec<String> = Vec::new();
             let mut nruns = 0;
+            let only_case: Option<usize> = m.get("only").and_then(|s| s.parse().ok());
             for id in 0..n {
+                if only_case.map(|o| o != id).unwrap_or(false) {
+                    continue;
+                }
                 let kind = &kinds[id % kinds.len()];
                 let sparse_every: usize = m.get("sparse-every").and_then(|s| s.parse().ok()).unwrap_or(12).max(2);
                 let fprofile = match m.get("profile").map(|s| s.as_str()) {
